@@ -154,6 +154,12 @@ def build_catalogue():
             f.pf = ["f32", "f64"]
             f.wf = ["f32", "f64"]
             cat.append(f)
+    # mixed bases with the exponent-digit radix left unset (documented default: the mantissa radix)
+    for (r, b) in [(4, 2), (8, 2), (16, 2), (32, 2), (16, 4)]:
+        f = Fmt(f"MIX{r}_{b}_EUNSET", "core", radix=r, base=b, eradix=0)
+        f.pf = ["f32", "f64"]
+        f.wf = ["f32", "f64"]
+        cat.append(f)
     # exponent-digit radix variants with base == radix
     for (r, er) in [(16, 10), (2, 10), (36, 10), (3, 10), (7, 2), (10, 2), (10, 16), (10, 36), (12, 36), (32, 8), (5, 36), (24, 10)]:
         f = Fmt(f"R{r}_E{er}", "core", radix=r, eradix=er)
